@@ -192,15 +192,15 @@ def _rollover():
 
 def _rollover_parts():
     i = _rollover()
-    if len(i.body) != 3 or i.orelse:
-        raise Shape('doRollover: expected prefix assignment + with + for')
-    return i, i.body[0], i.body[1], i.body[2]
+    if len(i.body) != 4 or i.orelse:
+        raise Shape('doRollover: expected prefix assignment + with + earlier assignment + for')
+    return i, i.body[0], i.body[1], i.body[2], i.body[3]
 
 
 def rollover_guard_max_days():
     """removal only `if self.max_days:`; the listing is taken from the directory of the current file;
-    every file of the slice is removed with os.remove, in order"""
-    i, _, w, loop = _rollover_parts()
+    every file of the loop's sequence is removed with os.remove, in order"""
+    i, _, w, _, loop = _rollover_parts()
     ok = _norm(i.test) == 'self.max_days' and isinstance(w, ast.With) and len(w.items) == 1 \
         and _norm(w.items[0].context_expr) == 'os.scandir(dirname(self.baseFilename))' \
         and _norm(w.items[0].optional_vars) == 'it' and len(w.body) == 1 \
@@ -212,32 +212,26 @@ def rollover_guard_max_days():
 def rollover_lists_own_logs():
     """files = sorted(paths of the entries whose name starts with rootname + '-', ends with '.log' and which are
     regular files (symlinks not followed)) -- repaired by f977176"""
-    _, pre, w, _ = _rollover_parts()
+    _, pre, w, _, _ = _rollover_parts()
     ok = _norm(pre) == "prefix=self.rootname+'-'" and isinstance(w, ast.With) and len(w.body) == 1 \
         and _norm(w.body[0]) == ("files=sorted((entry.pathforentryinitifentry.name.startswith(prefix)and"
                                  "entry.name.endswith('.log')andentry.is_file(follow_symlinks=False)))")
     return 'bool', cbool(ok)
 
 
-def rollover_slice_code():
-    """0: files[-self.max_days:] (the newest are removed -- the defect repaired by 8755e5f), 1: files[:-self.max_days]
-    (the newest are kept); C20_source_facts demands 1"""
-    i = _rollover()
-    loops = [n for n in i.body if isinstance(n, ast.For)]
-    if len(loops) != 1:
-        raise Shape('doRollover: expected one for loop')
-    it = _norm(loops[0].iter)
-    if it == 'files[-self.max_days:]':
-        return 'nat', cnat(0)
-    if it == 'files[:-self.max_days]':
-        return 'nat', cnat(1)
-    raise Shape(f'doRollover: unknown removal slice {it}')
+def rollover_removes_old_earlier():
+    """earlier = [p for p in files if p < self.baseFilename]; the loop runs over
+    earlier[:max(0, len(earlier) - (self.max_days - 1))] -- repaired by 8755e5f and deef1e5"""
+    _, _, _, earl, loop = _rollover_parts()
+    ok = _norm(earl) == 'earlier=[pforpinfilesifp<self.baseFilename]' and isinstance(loop, ast.For) \
+        and _norm(loop.iter) == 'earlier[:max(0,len(earlier)-(self.max_days-1))]'
+    return 'bool', cbool(ok)
 
 
 FACTS = [OFF, COMLOG, log_levels_table_shape, check_level_shape, handle_shape, handle_compares_ge,
          set_conn_level_shape, module_sets_own_name, set_all_iterates_all_modules, handle_logging_shape,
          reset_sets_all_off, remove_calls_reset, ident_calls_reset, send_log_msg_shape,
-         rollover_guard_max_days, rollover_lists_own_logs, rollover_slice_code]
+         rollover_guard_max_days, rollover_lists_own_logs, rollover_removes_old_earlier]
 
 FINGERPRINTS = {
     'logging.check_level': lambda: find_func(parse(LOGGING), 'check_level'),
